@@ -922,6 +922,159 @@ def oracle_slow_start(case, impl):
     return hits
 
 
+def oracle_cc_accounting(case, impl):
+    """C05/C15 glue: the congestion controller is told about every acknowledged byte at most once. The sum of
+    the byte counts passed to `on_ack` never exceeds the payload bytes of the distinct sequence numbers the
+    peer has acknowledged so far (cumulatively or selectively) - otherwise the window grows by more than was
+    acknowledged, whatever the controller does with it."""
+    import re
+    tr = Trace(case, impl)
+    hits = []
+    if any(l.startswith(("vs tmode", "vs chanclose")) for l in case):
+        return []
+    pending, outstanding, highest, acked_total, told, ok = [], {}, None, 0, 0, False
+    for ev in tr.events:
+        if ev["op"] == "new":
+            pending, outstanding, acked_total, told = [], {}, 0, 0
+            highest = (int(ev["opts"].get("our", 101)) - 1) % 65536
+            ok = ev["opts"]["dir"] == "out"
+        if not ok:
+            continue
+        if ev["op"] == "inject" and "dgram" in ev:
+            pending.append(ev["dgram"])
+        if ev["op"] != "poll" or "dgrams" not in ev:
+            continue
+        for d in pending:
+            if d["type"] in (3, 4):
+                continue
+            if highest is not None and (_md(d["ack"], highest) > 0 or _sack_beyond(d, highest)):
+                return hits
+            for q in list(outstanding):
+                if _md(d["ack"], q) >= 0:
+                    acked_total += outstanding.pop(q)
+            if d["sack"] is not None:
+                raw = (bytes(d["sack"]) + bytes(8))[:8]
+                for b in range(64):
+                    if raw[b // 8] >> (b % 8) & 1:
+                        acked_total += outstanding.pop((d["ack"] + 2 + b) % 65536, 0)
+        pending = []
+        for m in re.finditer(r"on_ack\((\d+),", ev["out"]):
+            told += int(m.group(1))
+        if told > acked_total:
+            hits.append({"sig": {"oracle": "cc_accounting", "what": "controller_told_more_than_acknowledged"},
+                         "text": f"after the poll at t={ev['t']} ns the congestion controller has been told about {told} acknowledged bytes in total, but the peer has acknowledged only {acked_total} bytes of distinct sequence numbers (cumulative + selective): some bytes were counted twice"})
+            return hits
+        if not ev["fp"].get("st", "").startswith(("Established", "FinWait")):
+            return hits
+        for d in ev["dgrams"]:
+            if d["type"] == 0:
+                if highest is None or _md(d["seq"], highest) > 0:
+                    highest = d["seq"]
+                outstanding[d["seq"]] = d["plen"]
+    return hits
+
+
+def oracle_inactivity_discipline(case, impl):
+    """C08: only progress moves the remote-inactivity deadline. A poll whose whole input is data packets at or
+    below the consumed point (old duplicates), carrying an acknowledgement number the connection has processed
+    before and no selective ACK, must not leave the inactivity deadline later than it was: otherwise a peer that
+    keeps resending old data (its own ACK path is dead) keeps a closing connection, its table entry and its
+    share of the connection limit alive for ever (`Props/C08.stale_data_keeps_timers`)."""
+    tr = Trace(case, impl)
+    hits = []
+    batch, seen_acks, lc, prev_inact, alive, prev_st = [], set(), None, None, False, ""
+    for ev in tr.events:
+        if ev["op"] == "new":
+            batch, seen_acks, prev_inact, alive = [], set(), None, True
+            prev_st = "Established" if "st=Established" in ev["out"] else ""
+            try:
+                lc = int(ev["out"].split(";lc=")[1].split(";")[0])
+            except (IndexError, ValueError):
+                lc = None
+        if not alive:
+            continue
+        if ev["op"] == "inject":
+            batch.append(ev.get("dgram") if ev["out"].startswith("ok") else None)
+        if ev["op"] in ("chanclose", "cancel"):
+            alive = False
+        if ev["op"] != "poll" or "fp" not in ev:
+            continue
+        fp = ev["fp"]
+        stale = bool(batch) and lc is not None and all(
+            d is not None and d["type"] == 0 and d["plen"] > 0 and d["sack"] is None and d["ack"] in seen_acks
+            and -1024 <= _md(d["seq"], (lc + 1) % 65536) < 0 for d in batch)
+        st = fp.get("st", "")
+        stale = stale and st == prev_st
+        for d in batch:
+            # (only packets the state table certainly lets through to acknowledgement processing count as "seen")
+            if d is not None and d["type"] in (0, 2) and prev_st.startswith(("Established", "FinWait")):
+                seen_acks.add(d["ack"])
+        batch = []
+        prev_st = st
+        if any(d["type"] in (0, 1, 4) for d in ev.get("dgrams", [])):
+            # something (possibly new) went out after this poll's input was processed: an acknowledgement number
+            # seen so far may acknowledge it next time
+            seen_acks = set()
+        if not ev["res"].startswith("pending"):
+            alive = False
+            continue
+        new_inact = fp.get("t_inact", "-")
+        if stale and prev_inact not in (None, "-") and new_inact != "-" and int(new_inact) > int(prev_inact):
+            hits.append({"sig": {"oracle": "inactivity", "what": "stale_data_extends_inactivity_deadline"},
+                         "text": f"poll at t={ev['t']} ns processed only old duplicate data packets (nothing consumed, nothing newly acknowledged) and moved the remote-inactivity deadline from {prev_inact} to {new_inact} ns: a peer resending old data keeps the connection alive indefinitely"})
+            return hits
+        prev_inact = new_inact
+        try:
+            lc = int(fp.get("lc", lc))
+        except (TypeError, ValueError):
+            pass
+    return hits
+
+
+def oracle_completion_honest(case, impl):
+    """C03 (first clause): `flush` / `shutdown` report success only when every byte accepted by `write` before the
+    call has been cumulatively acknowledged by the peer (in a datagram the connection has processed). Judged on
+    the wire: bytes of the distinct data sequence numbers the scripted peer acknowledged vs bytes accepted."""
+    tr = Trace(case, impl)
+    hits = []
+    if any(l.startswith(("vs tmode", "vs chanclose")) for l in case):
+        return []
+    pending, outstanding, highest, acked_total, ok = [], {}, None, 0, False
+    for ev in tr.events:
+        if ev["op"] == "new":
+            pending, outstanding, acked_total = [], {}, 0
+            highest = (int(ev["opts"].get("our", 101)) - 1) % 65536
+            ok = True
+        if not ok:
+            continue
+        if ev["op"] == "inject" and "dgram" in ev:
+            pending.append(ev["dgram"])
+        if ev["op"] in ("flush", "shutdown") and ev["out"].startswith("ok") and ev["accepted_total"] > acked_total:
+            hits.append({"sig": {"oracle": "completion", "what": f"{ev['op']}_ok_before_all_bytes_acknowledged"},
+                         "text": f"`vs {ev['op']}` returned Ok although only {acked_total} of the {ev['accepted_total']} bytes accepted by write so far have been acknowledged by the peer"})
+            return hits
+        if ev["op"] != "poll" or "dgrams" not in ev:
+            continue
+        for d in pending:
+            if d["type"] in (3, 4):
+                continue
+            if highest is not None and _md(d["ack"], highest) > 0:
+                ok = False          # the peer acknowledges what was never sent: not judged
+                break
+            for q in list(outstanding):
+                if _md(d["ack"], q) >= 0:
+                    acked_total += outstanding.pop(q)
+        pending = []
+        for d in ev["dgrams"]:
+            if d["type"] == 0:
+                if highest is None or _md(d["seq"], highest) > 0:
+                    highest = d["seq"]
+                outstanding[d["seq"]] = d["plen"]
+            elif d["type"] == 1 and (highest is None or _md(d["seq"], highest) > 0):
+                highest = d["seq"]
+    return hits
+
+
 def oracle_eof_honest(case, impl):
     """C03: a reader sees a clean end-of-stream only after the peer's FIN: never when no FIN was ever received
     (connection aborted, channel from the socket lost, cancelled): then reads must report an error."""
@@ -1078,6 +1231,9 @@ def oracle_window_reopen(case, impl):
 
 
 ALL = {
+    "completion_honest": oracle_completion_honest,
+    "inactivity_discipline": oracle_inactivity_discipline,
+    "cc_accounting": oracle_cc_accounting,
     "window_reopen": oracle_window_reopen,
     "ack_forcing": oracle_ack_forcing,
     "eof_honest": oracle_eof_honest,
